@@ -290,7 +290,8 @@ impl Check for C11Check {
                 stats.probe("one_bank_moved_behind_another_exhaustive");
             } else {
                 let mut rm = Rng::new(scn.seed ^ 0x6d6f_7665);
-                for _ in 0..120 {
+                // (large events are mostly accepted ones: every trial is a full reconstruction)
+                for _ in 0..if n <= 80 { 60 } else { 12 } {
                     trials.push(Trial { perm: Perm::MoveAfter { from: rm.usize(0, n - 1), after: rm.usize(0, n - 1) }, hash_key: key ^ rm.below(3), twice: false, after_other: false, clock: None });
                 }
                 stats.probe("one_bank_moved_behind_another_sampled");
